@@ -1,124 +1,5 @@
-(* C01 driver.  One case per line:
-     (id ENABLED (R..) (P..) (E..) (M..) (G..) (PARSE..) (ORACLE..) WM (REQ..))
-   R = (key "sub, obj, act")           request definition as handed to Model.AddDef
-   P = (key "sub, obj, act" (rule..))  policy definition + the rules in stored order
-   E = (key text)   M = (key text)     effect / matcher text as handed to Model.AddDef
-   G = (key count (rule..))            role definition (number of "_") + grouping rules
-   PARSE = (text ast)                  every text that gets compiled -> its AST
-   ORACLE = (fn (args..) result)       built-ins the model does not define: what Go returned
-   WM                                  the text handed to EnforceWithMatcher
-   REQ = (ctx value..)                 ctx = - | (r p e m)
-   Prints, per request k: k.enf, k.ex, k.wm and one batch line: what the model computes. *)
-open Expr
-open Enforce
+(* C01 driver: every line of stdin is one enforce case; the handler (case format, what is
+   printed) is ocaml/c01/enfcase.ml, shared with the C03 driver. *)
 module Sx = Common.Sx
 
-let cs = Conv.cstr
-
-let rec pos_of_int n =
-  if n = 1 then BinNums.Coq_xH
-  else if n land 1 = 0 then BinNums.Coq_xO (pos_of_int (n lsr 1))
-  else BinNums.Coq_xI (pos_of_int (n lsr 1))
-let z_of_int n =
-  if n = 0 then BinNums.Z0 else if n > 0 then BinNums.Zpos (pos_of_int n) else BinNums.Zneg (pos_of_int (-n))
-
-let rec value_of (x : Sx.t) : value =
-  match x with
-  | Sx.A "nil" -> VNil
-  | Sx.L [Sx.A "s"; s] -> VStr (cs (Sx.atom s))
-  | Sx.L [Sx.A "n"; n] -> VNum (z_of_int (int_of_string (Sx.atom n)))
-  | Sx.L [Sx.A "b"; b] -> VBool (Sx.atom b = "1")
-  | Sx.L (Sx.A "l" :: xs) -> VList (Stdlib.List.map value_of xs)
-  | Sx.L (Sx.A "m" :: fs) -> VObj (false, Stdlib.List.map field_of fs)
-  | Sx.L (Sx.A "st" :: fs) -> VObj (true, Stdlib.List.map field_of fs)
-  | _ -> failwith "bad value"
-and field_of = function
-  | Sx.L [k; v] -> (cs (Sx.atom k), value_of v)
-  | _ -> failwith "bad field"
-
-let op_of = function
-  | "==" -> OEq | "!=" -> ONe | "<" -> OLt | "<=" -> OLe | ">" -> OGt | ">=" -> OGe
-  | "&&" -> OAnd | "||" -> OOr | "+" -> OAdd | "-" -> OSub
-  | s -> failwith ("bad operator " ^ s)
-
-let rec expr_of (x : Sx.t) : expr =
-  match x with
-  | Sx.L [Sx.A "v"; n] -> EVar (cs (Sx.atom n))
-  | Sx.L [Sx.A "a"; b; p] -> EAcc (cs (Sx.atom b), Stdlib.List.map cs (Sx.atoms p))
-  | Sx.L [Sx.A "s"; s] -> EStr (cs (Sx.atom s))
-  | Sx.L [Sx.A "n"; n] -> ENum (z_of_int (int_of_string (Sx.atom n)))
-  | Sx.L [Sx.A "b"; b] -> EBool (Sx.atom b = "1")
-  | Sx.L [Sx.A "o"; op; a; b] -> EBin (op_of (Sx.atom op), expr_of a, expr_of b)
-  | Sx.L [Sx.A "not"; a] -> ENot (expr_of a)
-  | Sx.L [Sx.A "in"; a; l] -> EIn (expr_of a, Stdlib.List.map expr_of (Sx.list l))
-  | Sx.L [Sx.A "c"; f; l] -> ECall (cs (Sx.atom f), Stdlib.List.map expr_of (Sx.list l))
-  | _ -> failwith "bad expr"
-
-let res_of (x : Sx.t) : res =
-  match x with
-  | Sx.A "err" -> Err
-  | Sx.A "panic" -> Panic
-  | v -> Ok (value_of v)
-
-let () =
-  Sx.iter_stdin (fun c ->
-    match Sx.list c with
-    | [id; en; rs; ps; es; ms; gs; parse; oracle; wm; reqs] ->
-        let id = Sx.atom id in
-        let rules x = Stdlib.List.map (Stdlib.List.map cs) (Sx.atomss x) in
-        let r_defs = Stdlib.List.map (fun d -> match Sx.list d with
-          | [k; v] -> (cs (Sx.atom k), load_tokens (cs (Sx.atom k)) (cs (Sx.atom v)))
-          | _ -> failwith "bad r") (Sx.list rs) in
-        let p_defs = Stdlib.List.map (fun d -> match Sx.list d with
-          | [k; v; pol] -> (cs (Sx.atom k), (load_tokens (cs (Sx.atom k)) (cs (Sx.atom v)), rules pol))
-          | _ -> failwith "bad p") (Sx.list ps) in
-        let e_defs = Stdlib.List.map (fun d -> match Sx.list d with
-          | [k; v] -> (cs (Sx.atom k), load_effect (cs (Sx.atom v)))
-          | _ -> failwith "bad e") (Sx.list es) in
-        let m_defs = Stdlib.List.map (fun d -> match Sx.list d with
-          | [k; v] -> (cs (Sx.atom k), load_matcher (cs (Sx.atom v)))
-          | _ -> failwith "bad m") (Sx.list ms) in
-        let g_defs = Stdlib.List.map (fun d -> match Sx.list d with
-          | [k; n; rl] ->
-              let count = Conv.nat_of_int (int_of_string (Sx.atom n)) in
-              let (links, ok) = Roles.rebuild count (rules rl) in
-              if not ok then failwith "grouping rule shorter than the role definition";
-              (cs (Sx.atom k), (count, links))
-          | _ -> failwith "bad g") (Sx.list gs) in
-        let ptab = Hashtbl.create 16 in
-        Stdlib.List.iter (fun d -> match Sx.list d with
-          | [t; a] -> Hashtbl.replace ptab (Sx.atom t) (expr_of a)
-          | _ -> failwith "bad parse entry") (Sx.list parse);
-        let otab = Hashtbl.create 16 in
-        let okey f args = Stdlib.String.concat "\000" (f :: args) in
-        Stdlib.List.iter (fun d -> match Sx.list d with
-          | [f; args; r] -> Hashtbl.replace otab (okey (Sx.atom f) (Sx.atoms args)) (res_of r)
-          | _ -> failwith "bad oracle entry") (Sx.list oracle);
-        let parse_fn s = Hashtbl.find_opt ptab (Conv.ostr s) in
-        let oracle_fn f args =
-          let k = okey (Conv.ostr f) (Stdlib.List.map Conv.ostr args) in
-          match Hashtbl.find_opt otab k with
-          | Some r -> r
-          | None -> failwith (Printf.sprintf "%s: the oracle table has no entry for %s" id (Stdlib.String.escaped k)) in
-        let m = { enabled = (Sx.atom en = "1"); r_defs; p_defs; e_defs; m_defs; g_defs } in
-        let wm = cs (Sx.atom wm) in
-        let req_of x = match Sx.list x with
-          | ctx :: vals ->
-              let ctx = match ctx with
-                | Sx.A _ -> None
-                | Sx.L [r; p; e; mm] -> Some { c_r = cs (Sx.atom r); c_p = cs (Sx.atom p); c_e = cs (Sx.atom e); c_m = cs (Sx.atom mm) }
-                | _ -> failwith "bad ctx" in
-              { rq_ctx = ctx; rq_vals = Stdlib.List.map value_of vals }
-          | _ -> failwith "bad request" in
-        let reqs = Stdlib.List.map req_of (Sx.list reqs) in
-        Stdlib.List.iteri (fun k rq ->
-          let (d1, e1) = api_enforce parse_fn oracle_fn m rq in
-          let ((d2, x2), e2) = api_enforce_ex parse_fn oracle_fn m rq in
-          let (d3, e3) = api_enforce_with_matcher parse_fn oracle_fn m wm rq in
-          let ex = match x2 with None -> -1 | Some j -> Conv.int_of_nat j in
-          Printf.printf "%s\t%d.enf\tdec=%s err=%s\n" id k (Sx.b2s d1) (Sx.b2s e1);
-          Printf.printf "%s\t%d.ex\tdec=%s err=%s ex=%d\n" id k (Sx.b2s d2) (Sx.b2s e2) ex;
-          Printf.printf "%s\t%d.wm\tdec=%s err=%s\n" id k (Sx.b2s d3) (Sx.b2s e3)) reqs;
-        let (bs, be) = api_batch_enforce parse_fn oracle_fn m reqs in
-        Printf.printf "%s\tbatch\tres=%s err=%s\n" id (Stdlib.String.concat "" (Stdlib.List.map Sx.b2s bs)) (Sx.b2s be)
-    | _ -> failwith "bad case")
+let () = Sx.iter_stdin (fun c -> Enfcase.run (Sx.list c))
